@@ -9,13 +9,23 @@ from facts import AnalysisBroken, Explorer
 import rules.common as common
 
 SCOPE = ('src/lib/ebus/datatype.cpp', 'src/lib/ebus/data.cpp', 'src/lib/ebus/symbol.cpp',
-         'src/lib/ebus/contrib/tem.cpp')
+         'src/lib/ebus/contrib/tem.cpp', 'src/lib/ebus/datatype.h', 'src/lib/ebus/data.h', 'src/lib/ebus/symbol.h',
+         'src/lib/ebus/contrib/tem.h')
 STRTO = {'strtol': True, 'strtoll': True, 'strtoul': False, 'strtoull': False, 'strtod': True, 'strtof': True,
          'strtold': True}   # name -> result may be negative
 
 
+_seen_inline = {}
+
+
 def in_scope(fn):
-    return fn.relfile in SCOPE
+    """functions of the data type / field modules, the inline ones of their headers once (they are parsed in every unit)"""
+    if fn.relfile not in SCOPE:
+        return False
+    if fn.relfile.endswith('.h'):
+        first = _seen_inline.setdefault((fn.name, fn.sig), str(fn.tu))
+        return first == str(fn.tu)
+    return True
 
 
 def r1(ctx):
@@ -530,7 +540,56 @@ def r8(ctx):
         raise AnalysisBroken('C07.R8: only %d value list constructions from caller-supplied maps found' % n)
 
 
+def r9(ctx):
+    ctx.rule('C07.R9', 'the range column of a field is given in the unit of the field value: in DataField::create the type that '
+             'parses the range texts carries the divisor of the field - the derive(divisor, ...) call is evaluated before '
+             'every parseInput() of a range text, and the condition it stands under is true for every divisor other than '
+             '0 and 1 (negative = reciprocal divisors included; evaluated for -1000..1000 on the typed AST)', minimum=2)
+    import tinyeval
+    fb = ctx.fb
+    fn = fb.fn('ebusd::DataField::create')
+    ctx.touch(fn)
+    parses = fn.calls('ebusd::NumberDataType::parseInput', suffix=False)
+    ders = [c for c in fn.calls('ebusd::NumberDataType::derive', suffix=False) if len(fn.nodes[c].get('args', [])) == 3 and
+            fn.ref_decl(fn.nodes[c]['args'][0])]
+    if not parses or len(ders) != 1:
+        raise AnalysisBroken('C07.R9: range parsing (%d parseInput) or the derive(divisor) call (%d) not found' % (len(parses), len(ders)))
+    der = ders[0]
+    dv = fn.ref_decl(fn.nodes[der]['args'][0])
+    conds = []
+    p = fn.parent(der)
+    while p is not None:
+        v = fn.nodes[p]
+        if v['k'] == 'IfStmt' and any(fn.nodes[x].get('decl') == dv for x in fn.walk(v['cond'])):
+            inthen = v.get('then') is not None and der in set(fn.walk(v['then']))
+            conds.append((p, v['cond'], inthen))
+        p = fn.parent(p)
+    bad = []
+    for val in (-1000, -100, -10, -2, -1, 0, 1, 2, 10, 100, 1000):
+        applied = True
+        for ifs, cond, inthen in conds:
+            m = tinyeval.Machine(fn, {}, [])
+            m.locals[dv] = val
+            try:
+                c = bool(m.rv(cond))
+            except tinyeval.Unknown as e:
+                raise AnalysisBroken('C07.R9: condition of the divisor derivation not evaluable (%s)' % e)
+            applied = applied and (c == inthen)
+        if applied != (val not in (0, 1)) and val not in (0, 1):
+            bad.append(val)
+    ctx.ob('C07.R9', fn, der, not bad, 'divisor applied to the range type', 'divisors left out: %s' % bad if bad else
+           'applied for every divisor other than 0 and 1')
+    cut = [fn.block_of(der)]
+    if conds:
+        cut = [fn.block_of(conds[-1][1])]
+    early = fn.reach([fn.entry], cut_blocks=cut)
+    for c in parses:
+        ok = fn.block_of(c) not in early
+        ctx.ob('C07.R9', fn, c, ok, 'range text parsed by the derived type', 'reached only behind the divisor derivation: %s' % ok)
+
+
 def run(ctx):
+    r9(ctx)
     r8(ctx)
     r6(ctx)
     r1(ctx)
